@@ -237,7 +237,7 @@ func TestC15_SignVerify(t *testing.T) {
 			bad, label = strings.Join(s2, "."), "bad-base64"
 		case 10: // unsupported / mismatching key description
 			kk := *jwk
-			switch rapid.IntRange(0, 5).Draw(t, "keyMod") {
+			switch rapid.SampledFrom([]int{4, 5, 0, 1, 2, 3}).Draw(t, "keyMod") {
 			case 4: // a key description that is not the matching key: coordinate with an extra byte
 				x, _ := k.XY()
 				kk.X = b64(append(append([]byte{}, x...), rapid.Byte().Draw(t, "extraByte")))
